@@ -510,6 +510,7 @@ var ghostHeaps = map[string]string{
 	"opened":  "Int", // number of Open attempts on a transport
 	"consumed": "Int", // bytes taken from an io.Reader
 	"atype":    "Int", // type id of a (mutable) TApplicationException
+	"drained":  "Int", // number of Drain calls on a NATS subscription
 }
 
 func (e *Engine) evalCall(s *State, c *SpecCtx, n *ast.CallExpr) *SV {
@@ -591,6 +592,10 @@ func (e *Engine) evalCall(s *State, c *SpecCtx, n *ast.CallExpr) *SV {
 		lf := e.leaves(u.Elem())[0]
 		h := e.specHeap(s, c, "E!"+typeKey(u.Elem())+lf.Path, "(Array Int (Array Int "+lf.Sort+"))")
 		return &SV{V: &Val{L: []string{app("select", h, sl.V.L[0])}}, Sort: "(Array Int " + lf.Sort + ")"}
+	case "subslice":
+		// subslice(s, lo): the slice s[lo:]
+		sl, lo := arg(0), arg(1)
+		return &SV{V: &Val{L: []string{sl.V.L[0], app("+", sl.V.L[1], lo.V.L[0]), app("-", sl.V.L[2], lo.V.L[0]), app("-", sl.V.L[3], lo.V.L[0])}}, T: sl.T}
 	case "off":
 		return svInt(arg(0).V.L[1])
 	case "cast":
@@ -833,6 +838,69 @@ func (e *Engine) evalCall(s *State, c *SpecCtx, n *ast.CallExpr) *SV {
 			return svInt(sends[k].ch)
 		}
 		return e.svOf(sends[k].vv, sends[k].vt)
+	case "inorder":
+		// inorder("k1", "k2", ...): the first calls to these callees on this path occur in this order
+		if c.AtCallSite {
+			panic(clauseNotApplicable{"inorder at call site"})
+		}
+		last := -1
+		okOrder := true
+		for _, a := range n.Args {
+			name, _ := strconv.Unquote(a.(*ast.BasicLit).Value)
+			// "kind:what" selects other event kinds (send, recv, close, go, select); "kind:" matches any
+			kind := "call"
+			for _, k := range []string{"call:", "send:", "recv:", "close:", "go:", "select:"} {
+				if strings.HasPrefix(name, k) {
+					kind, name = k[:len(k)-1], name[len(k):]
+				}
+			}
+			pos := -1
+			for i, ev := range s.Trace {
+				if ev.Kind == kind && (ev.What == name || name == "") && i > last {
+					pos = i
+					break
+				}
+			}
+			if pos < 0 {
+				okOrder = false
+				break
+			}
+			last = pos
+		}
+		return svBool(fmt.Sprint(okOrder))
+	case "nheld":
+		// nheld("callee key", k): number of locks this activation holds at the k-th call to that callee
+		if c.AtCallSite {
+			panic(clauseNotApplicable{"nheld at call site"})
+		}
+		name, _ := strconv.Unquote(n.Args[0].(*ast.BasicLit).Value)
+		k, _ := strconv.Atoi(n.Args[1].(*ast.BasicLit).Value)
+		cnt := 0
+		for _, ev := range s.Trace {
+			if ev.Kind == "call" && ev.What == name {
+				if cnt == k {
+					return svInt(num(int64(len(ev.Held))))
+				}
+				cnt++
+			}
+		}
+		panic(clauseNotApplicable{"nheld " + name})
+	case "lastcallret":
+		if c.AtCallSite {
+			panic(clauseNotApplicable{"lastcallret at call site"})
+		}
+		name, _ := strconv.Unquote(n.Args[0].(*ast.BasicLit).Value)
+		ri, _ := strconv.Atoi(n.Args[1].(*ast.BasicLit).Value)
+		for i := len(s.Trace) - 1; i >= 0; i-- {
+			ev := s.Trace[i]
+			if ev.Kind == "call" && ev.What == name && ri < len(ev.Rets) {
+				if ri < len(ev.RetTypes) && ev.RetTypes[ri] != nil {
+					return e.svOf(ev.Rets[ri], ev.RetTypes[ri])
+				}
+				return &SV{V: ev.Rets[ri], Sort: "Int"}
+			}
+		}
+		panic(clauseNotApplicable{"lastcallret " + name})
 	case "lastcallarg":
 		// lastcallarg("callee key", i): i-th argument of the most recent call to that callee on this path
 		if c.AtCallSite {
